@@ -8,7 +8,7 @@ func init() {
 			"no raw Read on a stream, so any conforming reader chunking is handled (R13a); the error of every fallible call is examined on every path and, when " +
 			"non-nil, leaves the function as a non-nil error — through the ForEach callbacks too — so a failing sink or a truncated stream cannot be reported as " +
 			"success; only io.EOF at a record boundary may become success (R13b); the count of every stream operation reaches the running total that is returned " +
-			"(R13c); each restore function returns success only behind a post-read consistency test of the restored state (R13d); a record buffer that outlives one record "+
+			"(R13c); each restore function returns success only behind a post-read consistency test of the restored state (R13d); a record buffer that outlives one record " +
 			"(declared outside the per-element callback or loop that writes it) has every byte the region assigns assigned on every path to the write, so no byte of the previous record is written again (R13f). These clauses hold for every " +
 			"reader chunking, truncation point and writer failure offset because they hold on every path.",
 		NotDecided: "equality of the restored forest with the original, its evolution under further blocks, agreement of writer and reader wire formats and of " +
